@@ -379,6 +379,10 @@ def check(run):
     ob_equivocation(run, "O12.4")
     ob_layout(run, "O12.5")
     ob_consumed_authenticated(run, "O12.6")
+    # "payload at its shred index is proven under that root; replay under another index is rejected": decided by the Merkle walk
+    # (side selected by the index bit, ordered and labelled pair hash, index domain)
+    from . import C15
+    C15.check(run, prefix="O12.8")
     if run.tier == "thorough":
         witness(run, "O12.1w")
 
